@@ -38,4 +38,20 @@ theorem C12_document_no_image (b : Builder) (q : QR) (hc : SvgSafe.ColoursSafe b
     check (SvgCheck.expectOf b q) (toStr b q) = none :=
   SvgCheck.document b q hc (fun h => absurd hi h)
 
+/-! non-vacuity: a history with a string colour, an RGBA colour, two layers and an image reference full of
+markup characters satisfies the hypotheses (a 21x21 matrix with one dark module) -/
+example : check (SvgCheck.expectOf (Builder.run
+      [.shape 1, .shapeColor 0 (.str "#ff0000"), .backgroundColor (.rgba 1 2 3 4), .image "a\"<b&c>.png", .imageBgShape 2]) ((QR.blank 21).set 3 4 1))
+    (toStr (Builder.run
+      [.shape 1, .shapeColor 0 (.str "#ff0000"), .backgroundColor (.rgba 1 2 3 4), .image "a\"<b&c>.png", .imageBgShape 2]) ((QR.blank 21).set 3 4 1)) = none := by
+  refine C12_document _ ?_ ((QR.blank 21).set 3 4 1) (v := 0) (by decide) (by decide) (by decide)
+  intro op hop
+  simp only [List.mem_cons, List.mem_nil_iff, or_false] at hop
+  rcases hop with rfl | rfl | rfl | rfl | rfl
+  · trivial
+  · exact SvgSafe.lit_safe "#ff0000" (by decide)
+  · trivial
+  · trivial
+  · trivial
+
 end FastQr.Props.C12
